@@ -27,6 +27,7 @@ CHECKS = {
                       overlay=[{"file": "ring/replication_set.go", "rewrite": ['"sync"']},
                                {"file": "ring/replication_set_tracker.go", "rewrite": ['"sync"', '"go.uber.org/atomic"', '"math/rand"']}])]},
     "C12": {"parts": [P("instance-shards", "./c12", "^TestC12Instances$"), P("instance-lookback", "./c12", "^TestC12Lookback$"), P("partition-shards", "./c12", "^TestC12Partitions$")]},
+    "C13": {"parts": [P("ring-client", "./c13", "^TestC13Ring$"), P("partition-watcher", "./c13", "^TestC13Partitions$")]},
     "C14": {"parts": [P("instance-ranges", "./c14", "^TestC14Instances$"), P("partition-ranges", "./c14", "^TestC14Partitions$")]},
     "C16": {"parts": [P("random-generator", "./c16", "^TestC16Random$"), P("spread-minimizing", "./c16", "^TestC16SpreadMinimizing$")]},
     "C18": {"parts": [P("init-order", "./c18", "^TestC18Init$"), P("cycle-rejection", "./c18", "^TestC18Cycles$"),
